@@ -10,6 +10,7 @@ import z3
 from .values import And_, Not_, Implies_, concrete_bool, zbool
 
 VALID, REFUTED, UNKNOWN = 'valid', 'refuted', 'unknown'
+SCALE = float(os.environ.get('PYVC_TIMEOUT_SCALE', '3'))
 
 
 class Obligation:
@@ -82,7 +83,7 @@ def discharge_split(ob, timeout_ms, want_model=True):
     model = None
     for k, g in enumerate(parts):
         sub = Obligation(f'{ob.id}#part{k}', ob.kind, hyp, g, ob.prop, ob.label, ob.meta)
-        r = discharge(sub, timeout_ms, second_opinion=True, want_model=want_model, split=False)
+        r = discharge(sub, timeout_ms / SCALE, second_opinion=True, want_model=want_model, split=False)
         if r['status'] == REFUTED:
             return {'status': REFUTED, 'backend': r['backend'] + f'+split({k + 1}/{len(parts)})', 'model': r['model']}
         if r['status'] != VALID:
@@ -94,6 +95,8 @@ def discharge(ob, timeout_ms=10000, second_opinion=True, want_model=True, split=
     """returns dict(status, backend, seconds, model) -- status in valid/refuted/unknown
     (for covers: 'valid' means satisfiable as required)"""
     t0 = time.time()
+    # head-room: the budgets in the drivers were sized on an idle machine; verdicts must not flip to `unknown` when all cores are busy
+    timeout_ms = int(timeout_ms * SCALE)
     neg = ob.negation()
     cb = concrete_bool(z3.simplify(neg))
     backend = 'z3-5.1(py)'
